@@ -117,10 +117,21 @@ def replay(chk, pid, path):
 def check_c10(chk, tier):
     hb = vlib.build_harness("dev")
     d = wdir("C10")
-    cfg = "MC_C10.quick.cfg" if tier == "quick" else "MC_C10.thorough.cfg"
-    r = vlib.tlc("MC_C10", cfg, workers=8, timeout=3000)
+    r = vlib.tlc("MC_C10", "MC_C10.quick.cfg", workers=8, timeout=3000)
     chk.add_tlc(r)
     beh = r.records.get("REPLAY", [])
+    if tier == "thorough":
+        # all 1 082 401 sequences of length <= 4 against the true optimum (model checking only) ...
+        r4 = vlib.tlc("MC_C10", "MC_C10.thorough.cfg", workers=12, timeout=3400, xmx="16g")
+        chk.add_tlc(r4)
+        # ... and lengths up to 5 over the 12 boundary sizes, replayed
+        rb = vlib.tlc("MC_C10", "MC_C10.boundary.cfg", workers=12, timeout=3400, xmx="16g")
+        chk.add_tlc(rb)
+        beh += rb.records.get("REPLAY", [])
+        neg = vlib.tlc("MC_C10", "MC_C10.neg.cfg", workers=2, timeout=300, expect_violation=True)
+        if neg.violated != "GreedyIsLayout":
+            raise ToolError("negative control BadStep (>= instead of >) did not violate GreedyIsLayout")
+        chk.extra["negative_controls"] = ["BadStep (>= 256 opens a slot) violates GreedyIsLayout"]
     if len(beh) < 1000:
         raise ToolError("MC_C10 generated only %d behaviours" % len(beh))
     bpath = os.path.join(d, "behaviours.ndjson")
